@@ -26,8 +26,24 @@ func main() {
 		return
 	}
 	ev.Main("C03", "fault_enumeration",
-		"seeded receive/remove histories over <=13 blobs (empty blob, duplicate receive, remove + re-receive in every history); the LAST op is crashed at every point: files = every prefix of its VFS call trace (plus cuts inside each Write) x {un-synced data kept, dropped, zeroed} on an in-memory crash-modelling VFS; diskpacked (leveldb and kv metaIndex, maxFileSize 2000) = crash directories materialised from a real before/after snapshot diff (every prefix of the appended record for records <=256 B, else header boundaries +-2 and 16 body cuts; index before/after; with/without next pack on roll-over; every order-consistent and, counted separately, every power-loss subset of {header rewrite (also torn), body zeroing (prefixes), index row delete}); after each restart: journal maybe-map audit (fetch, subfetch, stat, enumerate, stream), Reindex into a fresh index + audit of a store opened on it, continued history (re-do of the in-flight op, new blobs across a roll-over, removes, duplicate and re-receive), second audit and Reindex; thorough adds real SIGKILLs of a child process on the OS filesystem; distinct = (store, history, crash-point kind, offset class)",
+		"seeded receive/remove histories over <=13 blobs (empty blob, duplicate receive, remove + re-receive in every history); the LAST op is crashed at every point: files = every prefix of its VFS call trace (plus cuts inside each Write) x {un-synced data kept, dropped, zeroed} on an in-memory crash-modelling VFS; diskpacked (leveldb and kv metaIndex, maxFileSize 2000) = crash directories materialised from a real before/after snapshot diff (every prefix of the appended record for records <=256 B, else header boundaries +-2 and 16 body cuts; index before/after; with/without next pack on roll-over; every order-consistent and, counted separately, every power-loss subset of {header rewrite (also torn), body zeroing (prefixes), index row delete}); the order of pack writes relative to the index write is OBSERVED (packs read at the index-mutation instant through a recording KV), not assumed; after each restart: journal maybe-map audit (fetch, subfetch, stat, enumerate, stream), Reindex into a fresh index + audit of a store opened on it, continued history (re-do of the in-flight op - an in-flight remove is continued both by re-receive and by re-remove -, new blobs across a roll-over, removes, duplicate and re-receive), second audit and Reindex; both tiers also replay an strace of a child (localdisk, diskpacked) against per-file dirty bits: no receive may be acknowledged with un-fsynced blob data; thorough adds real SIGKILLs of a child process on the OS filesystem (incl. multi-MiB blobs whose write(2) a kill cuts short); distinct = (store, history, crash-point kind, offset class)",
 		run)
+}
+
+var (
+	sampleMu   sync.Mutex
+	sampleSeen = map[string]bool{}
+)
+
+// sampleFirst records the first case of each category as an evidence sample.
+func sampleFirst(r *ev.Run, key string, v any) {
+	sampleMu.Lock()
+	seen := sampleSeen[key]
+	sampleSeen[key] = true
+	sampleMu.Unlock()
+	if !seen {
+		r.Sample(v)
+	}
 }
 
 // pool runs tasks on a fixed number of goroutines.
@@ -169,8 +185,11 @@ func run(r *ev.Run) {
 	r.Require("crash_points_files",
 		"recv-before-first-call", "recv-after-mkdirall", "recv-after-tempfile", "recv-after-write", "recv-mid-write", "recv-after-sync",
 		"recv-after-close", "recv-after-lstat", "recv-after-rename", "remove-before-first-call", "remove-after-remove")
-	r.Require("crash_points_diskpacked",
+	// required by content (which of header / body / index row were changed), whatever order the code
+	// performs them in; "pl-" only says a state is not a prefix of the OBSERVED order
+	r.Require("crash_states_diskpacked",
 		"none", "torn-header", "torn-body", "full-noindex", "full-indexed", "full-noindex-rolled", "full-indexed-rolled",
 		"remove-none", "remove-header-torn", "remove-header", "remove-header-zero-partial", "remove-header-zeroed", "remove-complete",
-		"pl-remove-index-only", "pl-remove-header-index", "pl-remove-zeroed-only", "pl-remove-zeroed-index")
+		"remove-index-only", "remove-header-index", "remove-zeroed-only", "remove-zeroed-index")
+	r.Require("state_classes", "order-consistent", "power-loss-only")
 }
